@@ -94,6 +94,10 @@ structure Facts where
   vacuumFinishesRetire : Bool
   /-- the keep pass also walks every version listed under root/current/ that is not in the graph -/
   vacuumKeepsListedCurrent : Bool
+  /-- the walks of vacuum load nodes from the bucket, not through the node cache -/
+  vacuumWalksBypassCache : Bool
+  /-- a version's creation time is set when it is committed -/
+  versionsDatedAtCommit : Bool
   /-- `Vacuum` replaces an open transaction's snapshot by the vacuumed tree -/
   vacuumRepointsSnapshot : Bool
   /-- `RemoveTombstones` clamps the cutoff to what int64 nanoseconds can express -/
